@@ -53,7 +53,9 @@ def twin_runs(chk, stats):
         pool = rl.CHEAP if (quick and li < 4) else rl.ALL9
         k = rng.randint(2, 4)
         kinds = [(rng.choice(pool), rng.randint(1, 3)) for _ in range(k)]
-        kinds[0] = (rng.choice(["halton", "rseq", "uniform"]), rng.randint(2, 3))
+        # history-free first sampler, producing at least as many points as any later sampler needs (best-batch requires
+        # batch_size existing points)
+        kinds[0] = (rng.choice(["halton", "rseq", "uniform"]), max(3, max(b for _, b in kinds)))
         if li % 3 == 2:
             kinds.append(kinds[1])             # repeated class
         is_rl = li % 4 == 3
